@@ -37,6 +37,7 @@ def check(ctx) -> None:
     r43(ctx)
     r44(ctx)
     r45(ctx)
+    r46(ctx)
 
 
 def _increment_form(s: ast.AST, t: ast.Attribute):
@@ -459,3 +460,60 @@ def r45(ctx) -> None:
                     f'independently, so COPYUID 101:104 103:106 pairs the '
                     f'wrong messages (104->103, 101->104, …); FETCH/STORE '
                     f'responses come out of order')
+
+
+def r46(ctx) -> None:
+    R = ctx.rule('R4.6', 'maildir: a file that leaves a mailbox with its key '
+                 'takes its UID record along', 1)
+    MD = 'pymap/backend/maildir/mailbox.py'
+    f = ctx.proj.cls(MD, 'MailboxData').own_method('move')
+    if f is None:
+        raise AnchorError('maildir move vanished')
+    cfg = cfg_of(f)
+    mv = cfg.find(lambda n: any(call_name(c) == 'move_message'
+                                for c in n.calls()))
+    if not mv:
+        raise AnchorError('maildir move: move_message call not found')
+    # removal of the SOURCE record: X.remove(uid) where X is bound by a
+    # with_write block on self._path (or on destination._path when the
+    # destination IS self)
+    rem = {}
+    for w in [x for x in walk_local(f.node) if isinstance(x, ast.AsyncWith)]:
+        for it in w.items:
+            c = it.context_expr
+            if isinstance(c, ast.Call) and call_name(c) == 'with_write' and \
+                    c.args and isinstance(it.optional_vars, ast.Name):
+                path = txt(c.args[0])
+                for x in [y for b in w.body for y in ast.walk(b)]:
+                    if isinstance(x, ast.Call) and call_name(x) == 'remove' \
+                            and is_name(x.func.value, it.optional_vars.id) \
+                            and x.args and txt(x.args[0]) == 'uid':
+                        for n in cfg.node_containing(x):
+                            rem[n] = path
+    rets = [r for r in cfg.find(lambda n: isinstance(n.stmt, ast.Return))
+            if r.stmt.value is not None
+            and const_value(r.stmt.value) != (True, None)]
+    tests = [t for t in cfg.nodes if t.kind == 'test']
+    bad = []
+    for pol in (True, False):        # destination is self / is not self
+        skip = []
+        for t in tests:
+            at = guard_atoms(t.stmt.test)
+            if len(at) == 1 and at[0][0] == 'destination is self':
+                # the edge that contradicts the assumption
+                skip.append((t, 'f' if at[0][1] == pol else 't'))
+        ok_nodes = [n for n, path in rem.items()
+                    if path == 'self._path' or (pol and path ==
+                                                'destination._path')]
+        r = cfg.reach(mv, avoid=ok_nodes, labels=NORMAL, skip_edges=skip)
+        if any(x in r for x in rets):
+            bad.append('destination is self' if pol
+                       else 'destination is another mailbox')
+    R.check(bool(rem) and bool(rets) and not bad, f, f.node,
+            'maildir move: the source UID record is removed on every '
+            'successful path',
+            f'when {bad or "…"} a successful move() returns without '
+            f'removing the source mailbox\'s dovecot-uidlist record: '
+            f'move_message() keeps the file\'s key, so moving the message '
+            f'back later makes the stale record valid again — the expunged '
+            f'UID reappears next to the new one (one file under two UIDs)')
